@@ -76,6 +76,13 @@ def main(run):
     found = [r for r in site_results if r[0]['name'].startswith('common::reference::RiRefBufImpl::authority_mut') and r[3] == 'MUTGATE']
     if len(found) < 2:
         run.violation('wiring|authority_mut', 'RiRefBufImpl::authority_mut no longer creates the handle from the find_authority range through the recognised sites')
+    # what the handle hands out (as_authority / into_authority / Deref) is exactly its window buffer[start..end]
+    views = [r for r in site_results if r[3] == 'HANDLE' and 'AuthorityMutImpl' in r[0]['name']]
+    run.cov['handle_views'] = len(views)
+    for (vb, line, callee, cls, by, detail, ok, why, _n) in views:
+        if not ok:
+            run.violation(f'view|{vb["name"]}', f'{P.where(vb, line)} {vb["name"]}: {why}')
+    run.floor('handle_views', 2, 'views handed out by the authority handle')
     bb = P.body('common::reference::RiRefBufImpl::authority_mut')
     if bb is not None:
         calls = [mir.callee(t) for _, t in P.calls(bb)]
